@@ -279,6 +279,17 @@ UN = ("N", "XI", "XU", "W", "GL", "GR", "AA", "OO")      # GL/GR: x.left / x.rig
 SETTERS = ("SL", "SR", "XI", "XU")
 
 
+def kids(p):
+    """sub-programs of a program node (["AT", path, op, x(, y)]: in-place edit of the sub-object of x at path)"""
+    if p[0] in ("p", "n", "c", "b"):
+        return []
+    return p[3:] if p[0] == "AT" else p[1:]
+
+
+def rebuild(p, new_kids):
+    return (p[:3] if p[0] == "AT" else p[:1]) + list(new_kids)
+
+
 def postfix(p):
     k = p[0]
     if k in ("p", "n", "c"):
@@ -286,22 +297,24 @@ def postfix(p):
     if k == "b":
         return ["b"]
     out = []
-    for x in p[1:]:
+    for x in kids(p):
         out += postfix(x)
+    if k == "AT":
+        return out + ["@%s%s" % (p[1], p[2])]
     return out + [k]
 
 
 def prog_ops(p, acc=None):
     acc = {} if acc is None else acc
-    acc[p[0]] = acc.get(p[0], 0) + 1
-    if p[0] not in ("p", "n", "c", "b"):
-        for x in p[1:]:
-            prog_ops(x, acc)
+    key = "@" + p[2] if p[0] == "AT" else p[0]
+    acc[key] = acc.get(key, 0) + 1
+    for x in kids(p):
+        prog_ops(x, acc)
     return acc
 
 
 def prog_size(p):
-    return 1 if p[0] in ("p", "n", "c", "b") else 1 + sum(prog_size(x) for x in p[1:])
+    return 1 + sum(prog_size(x) for x in kids(p))
 
 
 def gen_prog(rng, depth, base, setters, leaves=None):
@@ -359,6 +372,43 @@ def run_program(p, basecell):
         return ~C[p[1]]
     if k == "b":
         return basecell.geometry
+    if k == "AT":
+        # in-place edit of a sub-object: x.left.operator = ..., x.right.left = y, x.left &= y, ...; the result is x
+        root = run_program(p[3], basecell)
+        path, op = p[1], p[2]
+        b = run_program(p[4], basecell) if len(p) > 4 else None
+        parent = root
+        for ch in path[:-1]:
+            if isinstance(parent, UnitHalfSpace):
+                raise Guard()
+            parent = parent.left if ch == "L" else parent.right
+            if parent is None:
+                raise Guard()
+        if isinstance(parent, UnitHalfSpace):
+            raise Guard()
+        side = "left" if path[-1] == "L" else "right"
+        target = getattr(parent, side)
+        if target is None or (isinstance(target, UnitHalfSpace) and (target.is_cell or op != "IA" and op != "IO")):
+            raise Guard()
+        if op in ("XI", "XU"):
+            if target.operator == Operator.COMPLEMENT:
+                raise Guard()
+            target.operator = Operator.INTERSECTION if op == "XI" else Operator.UNION
+        elif op == "SL":
+            target.left = b
+        elif op == "SR":
+            if target.operator == Operator.COMPLEMENT:
+                raise Guard()
+            target.right = b
+        elif op == "IA":
+            target &= b
+            setattr(parent, side, target)
+        elif op == "IO":
+            target |= b
+            setattr(parent, side, target)
+        else:
+            raise ValueError(op)
+        return root
     a = run_program(p[1], basecell)
     if k == "N":
         return ~a
@@ -696,18 +746,16 @@ def real_answer(ob):
 # ---------------------------------------------------------------------------- shrinking
 def subprogs(p):
     """candidate smaller programs"""
-    k = p[0]
-    if k in ("p", "n", "c", "b"):
-        return
-    for x in p[1:]:
+    ks = kids(p)
+    for x in ks:
         yield x
-    for i in range(1, len(p)):
-        for y in subprogs(p[i]):
-            yield p[:i] + [y] + p[i + 1:]
+    for i in range(len(ks)):
+        for y in subprogs(ks[i]):
+            yield rebuild(p, ks[:i] + [y] + ks[i + 1:])
 
 
 def has_base(p):
-    return p[0] == "b" or (p[0] not in ("p", "n", "c") and any(has_base(x) for x in p[1:]))
+    return p[0] == "b" or any(has_base(x) for x in kids(p))
 
 
 def ast_items(a, level=0):
@@ -808,6 +856,51 @@ def make_case(rng, stream, boost=0):
     if stream == "edited-setters":
         return {"stream": stream, "base_lines": render_geom(rng, items, glue=0.0),
                 "prog": gen_prog(rng, rng.choice([1, 2, 3]), True, True)}
+    if stream == "history":                # from scratch, written, edited in place below the root, written again
+        main_op = rng.choice(["A", "O"])
+
+        def tree(d):
+            r = rng.random()
+            if d <= 0 or r < 0.2:
+                return ["c", rng.randint(1, N_CELL)] if rng.random() < 0.3 else [rng.choice(["p", "n"]), rng.randint(1, N_SURF)]
+            if r < 0.35:
+                return ["N", tree(d - 1)]
+            op = main_op if rng.random() < 0.75 else ("O" if main_op == "A" else "A")
+            return [op, tree(d - 1), tree(d - 1)]
+
+        def paths(t, pre=""):
+            # (path, kind) of the sub-objects of the object that the pure & | ~ program t builds
+            out = []
+            if t[0] in ("A", "O"):
+                out += [(pre + "L", t[1][0]), (pre + "R", t[2][0])] + paths(t[1], pre + "L") + paths(t[2], pre + "R")
+            elif t[0] == "N":
+                out += [(pre + "L", t[1][0])] + paths(t[1], pre + "L")
+            return out
+
+        def ops_for(kind):
+            if kind in ("A", "O"):
+                return ["XI", "XU", "XU", "SL", "SL", "SR", "SR", "IA", "IO"]
+            if kind in ("N", "c"):          # a complement: its operand can be replaced
+                return ["SL", "SL", "IA", "IO"]
+            return ["IA", "IO"]             # a surface leaf
+
+        t = tree(rng.choice([2, 2, 3, 3, 4]))
+        if t[0] in ("p", "n"):
+            t = [main_op, t, tree(1)]
+        ps = paths(t)
+        pr = ["W", t]
+        for _ in range(rng.choice([1, 1, 2, 3])):
+            small = tree(rng.choice([0, 1, 1, 2]))
+            if rng.random() < 0.25 or not ps:
+                op = rng.choice(ops_for(t[0]))
+                pr = [op, pr] + ([] if op in ("XI", "XU") else [small])
+            else:
+                path, kind = rng.choice(ps)
+                op = rng.choice(ops_for(kind))
+                pr = ["AT", path, op, pr] + ([] if op in ("XI", "XU") else [small])
+            if rng.random() < 0.5:
+                pr = ["W", pr]
+        return {"stream": stream, "base_lines": None, "prog": pr}
     if stream == "layout-setters":         # every layout feature at once, with setters
         return {"stream": stream, "base_lines": render_geom(rng, items, glue=0.5, breaks=0.3, comments=0.6, multi=0.4,
                                                             width=rng.choice([24, 40, 64])),
@@ -860,7 +953,7 @@ def make_case(rng, stream, boost=0):
 def model_streams():
     """streams whose cases are also run through the model (shortcut tokens are outside the model)"""
     return ("scratch", "scratch-setters", "unedited", "edited", "edited-setters", "glued-setters", "layout-setters",
-            "deep", "corpus")
+            "deep", "history", "corpus")
 
 
 def in_model(case):
@@ -970,9 +1063,9 @@ def run(ctx):
              "edited-setters": 500 if quick else 10000, "glued-setters": 300 if quick else 6000,
              "layout-setters": 500 if quick else 10000, "alias": 300 if quick else 6000,
              "shortcut": 40 if quick else 800, "shortcut-edited": 60 if quick else 1200,
-             "deep": 30 if quick else 6000}
+             "deep": 30 if quick else 6000, "history": 800 if quick else 15000}
     if not quick:
-        sizes = {k: int(v * 2) for k, v in sizes.items()}
+        sizes = {k: int(v * 1.5) for k, v in sizes.items()}
     depth_boost = 0 if quick else 2
     # Gen/Grammar.v from the SLY grammars of the tree under test: C02_grammar_skeleton / C02_padding_skeleton and
     # C02_grammar_sound are stated over its cell_productions
